@@ -35,7 +35,8 @@ RF(t) ==
       [] t.k = "isnull" -> "(" \o RF(t.a) \o " IS NULL)"
       [] t.k = "in" -> "(" \o RF(t.a) \o " IN (" \o Join(RFSeq(t.items), ", ") \o "))"
       [] t.k = "between" -> "(" \o RF(t.a) \o " BETWEEN " \o RF(t.lo) \o " AND " \o RF(t.hi) \o ")"
-      [] t.k = "call" -> t.f \o "(" \o (IF t.args = <<>> THEN "*" ELSE Join(RFSeq(t.args), ", ")) \o ")"
+      [] t.k = "call" -> t.f \o "(" \o (IF "dist" \in DOMAIN t /\ t.dist THEN "DISTINCT " ELSE "")
+                         \o (IF t.args = <<>> THEN "*" ELSE Join(RFSeq(t.args), ", ")) \o ")"
       [] t.k = "case" -> "(CASE WHEN " \o RF(t.w) \o " THEN " \o RF(t.t) \o " ELSE " \o RF(t.e) \o " END)"
       [] t.k = "win" -> t.f \o "(" \o Join(RFSeq(t.args), ", ") \o ") OVER (" \o
                         (IF t.part = <<>> THEN "" ELSE "PARTITION BY " \o Join(RFSeq(t.part), ", ")) \o
